@@ -7,6 +7,7 @@ import (
 	"go/token"
 	"go/types"
 	"sort"
+	"strings"
 
 	"golang.org/x/tools/go/ssa"
 )
@@ -41,6 +42,11 @@ func (fr *Frame) exec(in ssa.Instruction, st *State) error {
 		}
 		fr.cellTypes[key] = elem
 		st.set(key, c.zero(elem))
+		for k := range fr.addrCache { // a new object: addresses handed out for an earlier one are not its addresses
+			if k == key || strings.HasPrefix(k, key+"/") {
+				delete(fr.addrCache, k)
+			}
+		}
 		fr.env[x] = &Val{L: &LVal{kind: rkLocal, key: key, rootT: elem, typ: elem}}
 		return nil
 	case *ssa.Store:
